@@ -200,6 +200,15 @@ def judge_optimal_qp(D, sol, v, feastol, abstol, reltol, maxiters):
     if not ok and dc > 0 and g / dc <= reltol * (1 + 1e-6) + R * r["gap_scale"] / dc:
         ok = True
     if not ok:
+        # objectives at the level of their own rounding error (optimal value 0): the sign the solver saw may differ from
+        # the recomputed one, so the criteria are also tried with the objectives moved by their rounding scale
+        pcm = pc - R * r["pcost_scale"]
+        dcp = dc + R * (r["dcost_scale"] + r["gap_scale"])
+        if pcm < 0 and g <= reltol * (1 + 1e-6) * -pcm + R * r["gap_scale"]:
+            ok = True
+        if dcp > 0 and g <= reltol * (1 + 1e-6) * dcp + R * r["gap_scale"]:
+            ok = True
+    if not ok:
         msgs.append("no gap criterion holds: gap %.3e abstol %.1e pcost %.6e L(x,y,z) %.6e reltol %.1e" % (
             g, abstol, pc, dc, reltol))
     it = sol.get("iterations")
